@@ -70,6 +70,21 @@ int main(int argc, char** argv) {
     phases += (unsigned)rng.below(4); // odd and even phase counts (sense-reversing state differs at reinit)
     if (VERIF_TSAN) phases = std::min(phases, 400u + (unsigned)rng.below(2));
     phases = std::min<unsigned>(phases, (unsigned)H.paramInt("maxphases", 1000000) + (unsigned)rng.below(2));
+    // short regions: a quarter of the cases run 4-6 regions of 1-3 phases each (re-initialisation after exactly one phase,
+    // after two, ...: state that survives a reinit shows in the first phase of the next region)
+    std::vector<unsigned> phasesOf(ns.size(), phases);
+    {
+      Rng sr(mix(H.caseSeed(k), 0x51a7));
+      if (sr.below(4) == 0) {
+        unsigned regions = 4 + (unsigned)sr.below(3);
+        while (ns.size() < regions)
+          ns.push_back(1 + (unsigned)sr.below(maxT));
+        phasesOf.assign(ns.size(), 1);
+        for (auto& p : phasesOf)
+          p = (unsigned)sr.pick({1, 1, 2, 3});
+        phases = 3;
+      }
+    }
     unsigned delayMode  = (unsigned)rng.below(5); // 0 none,1 one slow thread,2 random,3 alternate fast/slow,4 slow after leave
     unsigned delayProb  = (unsigned)rng.pick({0, 1, 4, 16});  // per-256
     unsigned pointProb  = (unsigned)rng.pick({0, 0, 256, 2048, 8192});
@@ -88,6 +103,7 @@ int main(int argc, char** argv) {
     std::unique_ptr<gs::Barrier> own;
     uint64_t totalAhead = 0, totalWaits = 0;
     bool bad            = false;
+    nregions = (unsigned)ns.size();
     for (unsigned r = 0; r < nregions && !bad; ++r) {
       unsigned n = ns[r];
       galois::setActiveThreads(n);
@@ -112,7 +128,8 @@ int main(int argc, char** argv) {
       galois::on_each([&](unsigned tid, unsigned numT) {
         Slot& me = slots[tid];
         Rng lr(mix(dseed, tid * 7919 + r));
-        for (uint64_t ph = 1; ph <= phases; ++ph) {
+        const uint64_t phasesHere = phasesOf[r];
+        for (uint64_t ph = 1; ph <= phasesHere; ++ph) {
           // delay before entering
           bool slow = false;
           switch (delayMode) {
@@ -165,7 +182,7 @@ int main(int argc, char** argv) {
       });
       for (unsigned t = 0; t < n; ++t) {
         totalAhead += slots[t].aheadSeen;
-        totalWaits += phases;
+        totalWaits += phasesOf[r];
         if (slots[t].firstEarly) {
           bad = true;
           H.violation(std::string("C05:") + IMPLS[impl] + "Barrier:early-release",
@@ -192,7 +209,7 @@ int main(int argc, char** argv) {
 #endif
     unsigned maxn = 0;
     for (unsigned n : ns) maxn = std::max(maxn, n);
-    bool nontrivial = maxn >= 2 && phases >= 2;
+    bool nontrivial = maxn >= 2 && (phases >= 2 || ns.size() >= 2);
     std::string sig = std::string(IMPLS[impl]) + "|" + jarr(ns) + "|" + std::to_string(nsock) + "|d" +
                       std::to_string(delayMode) + "|p" + std::to_string(pointProb) + "|a" +
                       (totalAhead ? "1" : "0");
